@@ -284,7 +284,9 @@ class ProcTable:
             if name == "cmdline":
                 return F(lambda: b"" if p.zombie else p.cmdline, gone)
             if name == "environ":
-                if p.zombie:
+                if p.zombie or getattr(p, "no_mm", False):
+                    # a task without an address space (zombie; kernel thread on kernels like the 6.18 of this sandbox,
+                    # where older ones served an empty file): the open itself answers ESRCH
                     raise oserr(errno.ESRCH)
                 return F(lambda: p.environ, gone)
             if name == "statm":
